@@ -120,9 +120,13 @@ def safe_check(prop, case):
     """check_case with one library-caused failure mode mapped to a discrepancy: serialized state text
     that the independent reader cannot make sense of (BadState) is the library's output being wrong,
     not a harness problem."""
-    from pv.harness import BadState
+    from pv.harness import BadState, NonFinite
     try:
         return prop.check_case(case)
+    except NonFinite:
+        res = Res()
+        res.skipped = "float-overflow(inf/nan value)"
+        return res
     except BadState as e:
         res = Res()
         res.bad(f"{prop.ID}/state-text-unreadable", {"error": str(e)[:500]})
